@@ -745,6 +745,28 @@ class Analysis:
         """accepted (the awaitable handed back by update is done) minus handed on"""
         V = []
         ctx = self.res.ctx
+        # map_async(parallelism=n) evaluates at most n+1 elements at once (n queued jobs plus the one
+        # the worker is waiting for - what the unedited test_map_async pins), whatever the arrivals
+        for nid in self.order:
+            n = self.spec[nid]
+            if n['op'] != 'map_async':
+                continue
+            lim = n.get('parallelism', 1) + 1
+            evs = []
+            for a in self.acts:
+                if a.node == nid:
+                    evs.append((a.seq, +1))
+                    if a.end is not None:
+                        evs.append((a.end, -1))
+            evs.sort()
+            cur = 0
+            for sq, d in evs:
+                cur += d
+                if cur > lim:
+                    V.append(Violation('C03', 'C03.bound', sq,
+                                       'map_async %d (parallelism %d) is evaluating %d elements at once, the bound is %d'
+                                       % (nid, lim - 1, cur, lim), node_op='map_async'))
+                    return V
         if getattr(getattr(self.res, 'rec', None), 'overloaded', False):
             return V
         for nid in self.order:
